@@ -16,7 +16,7 @@ class C08(Prop):
             "with the model only; non-trivial = at least two clique sizes occur or a size gap exists; distinct = distinct cover")
     assumptions = ["int/int float frequencies are mapped back to the unique rational with denominator <= number of vertices"]
     model_scope = "modelled: joint_degree_cover.py in full (constructor + create_jdd) and convert_jds_to_jdd"
-    budgets = {"quick": 300, "thorough": 4000}
+    budgets = {"quick": 300, "thorough": 20000}
     search_budget = {"quick": 800, "thorough": 6000}
 
     def gen(self, rng, i, tier):
